@@ -3,8 +3,8 @@ CONSTANTS
   MaxName = 6
   MaxRefs = 2
   Mode = "bytes"
-  Alphabet = {0, 1, 2, 12, 97, 192}
-  MaxBody = 7
+  Alphabet = {0, 1, 2, 12, 41, 97, 192}
+  MaxBody = 6
   Bug = "none"
 SPECIFICATION MCSpec
 INVARIANTS NoBadRead CursorInBounds EdnsWindow Agree StepBound
